@@ -304,7 +304,9 @@ def bmsgs_all(ctx, rng):
             ents = []
             for _ in range(k):
                 i = rng.choice([1, 22, "b", 'q"'])
-                n = rng.choice([0, 1, 5, 17])
+                # small entries, and entries larger than the fixed -32008 object (so that the space left in the array when the
+                # limit is crossed could still hold a per-call 'too big' error: the batch must be replaced as a whole all the same)
+                n = rng.choice([0, 1, 5, 17, 120, 260])
                 ents.append((i, gen_call(i, "gen", n, "a"), L.ser_str("a" * n), spec_of_unit("a", n)))
             for pos in range(1, k + 1):
                 # limit straddling the array at entry position pos
